@@ -11,6 +11,7 @@ package main
 
 import (
 	"fmt"
+	"os"
 	"strings"
 )
 
@@ -434,7 +435,7 @@ func groundScript(as []*Term, goal *Term) string {
 			collectReads(a, seenR, reads)
 		}
 		added := 0
-		for qi := len(quant) - 1; qi >= 0 && added < 1200; qi-- {
+		for qi := len(quant) - 1; qi >= 0 && added < addCap; qi-- {
 			added += instantiateReads(quant[qi], nil, reads, &insts)
 		}
 		if added == 0 {
@@ -714,7 +715,7 @@ func collectReads(t *Term, seen map[*Term]bool, out map[*Term][]*Term) {
 				break
 			}
 		}
-		if !dup && len(out[a]) < 24 {
+		if !dup && len(out[a]) < readCap {
 			out[a] = append(out[a], i)
 		}
 	}
@@ -782,4 +783,17 @@ func instantiateReads(a *Term, guards []*Term, reads map[*Term][]*Term, out *[]*
 		}
 	}
 	return n
+}
+
+var readCap, addCap = envInt("GOVC_READCAP", 24), envInt("GOVC_ADDCAP", 1200)
+
+func envInt(name string, def int) int {
+	if v := os.Getenv(name); v != "" {
+		n := 0
+		fmt.Sscanf(v, "%d", &n)
+		if n > 0 {
+			return n
+		}
+	}
+	return def
 }
